@@ -102,6 +102,7 @@ for _w in ("dt", "duration", "inclusive"):
 
 
 MUTANTS = [
+    dict(file=INF, func="RecordTensor.duration@setter", old='        value = argtest.gte("duration", value, 0, float)\n', new='        value = argtest.gte("duration", value, 0, float)\n        if value == self.__duration:\n            return\n', contracts=["RecordTensor.inclusive@setter", "RecordTensor.duration@setter"], name="seed C13b/C14b: duration setter returns early when unchanged (the inclusive setter relies on it to resize)"),
     dict(file=INF, func="RecordTensor.dt@setter", old="size = max(math.ceil(self.__duration / self.__dt) + self.__inclusive, 1)", new="size = max(math.ceil(self.__duration / self.__dt), 1) + self.__inclusive", contracts=["RecordTensor.dt@setter"], name="seed C13: inclusive outside max()"),
     dict(file=INF, func="RecordTensor.dt@setter", old="size = max(math.ceil(self.__duration / self.__dt) + self.__inclusive, 1)", new="size = max(round(self.__duration / self.__dt) + self.__inclusive, 1)", contracts=["RecordTensor.dt@setter"], name="seed C14: round instead of ceil"),
     dict(file=INF, func="RecordTensor.duration@setter", old="                if not self._ignore(self.__data):\n                    self.align(0)", new="                self.align(0)", contracts=["RecordTensor.duration@setter", "RecordTensor.inclusive@setter"], name="D4 regression: align on uninitialised storage"),
